@@ -16,6 +16,8 @@
 //	       x<K>       a middleware doing req.Header.Del(K)
 //	       I          a middleware whose InitMiddleware fails (Run must end with that error on both paths)
 //	       C          not a middleware: Close of the ammo file fails (Run must report it on both paths)
+//	       U          not a middleware, kind uri only: the lines of the file are given by the `uris:` option
+//	                  instead of `file:` (there is no file to close: C has no effect then)
 //
 //	<cancel> may be D<n>: after n items the context ends the way a context with a deadline does
 //	(Err() = context.DeadlineExceeded); Run must return that error ("deadline") on both paths.
@@ -64,7 +66,7 @@ func parseMws(s string) []mwSpec {
 			out = append(out, mwSpec{op: f[0], k: p.k, v: p.v})
 		case 'x':
 			out = append(out, mwSpec{op: 'x', k: string(vh.UnHex(orDash(f[1:])))})
-		case 'I', 'C':
+		case 'I', 'C', 'U':
 			out = append(out, mwSpec{op: f[0]})
 		}
 	}
@@ -126,8 +128,8 @@ func (o *opMiddleware) UpdateRequest(req *http.Request) error {
 func buildMiddlewares(mws []mwSpec) []middleware.Middleware {
 	var out []middleware.Middleware
 	for _, m := range mws {
-		if m.op == 'C' {
-			continue // not a middleware: the ammo file's Close fails
+		if m.op == 'C' || m.op == 'U' {
+			continue // not middlewares: the ammo file's Close fails / the uri lines are given inline
 		}
 		if m.op == 'd' {
 			d, err := headerdate.NewMiddleware(headerdate.Config{HeaderName: m.k})
@@ -195,7 +197,9 @@ func genMw(r *vh.Rand, tier string) []string {
 				cancel = "D" + cancel
 			}
 		}
-		if len(out)%7 == 3 && !hasOpt(mws, 'C') {
+		if kind == "uri" && len(out)%5 == 2 && !hasOpt(mws, 'U') {
+			mws = append(append([]mwSpec(nil), mws...), mwSpec{op: 'U'})
+		} else if len(out)%7 == 3 && !hasOpt(mws, 'C') {
 			mws = append(append([]mwSpec(nil), mws...), mwSpec{op: 'C'})
 		}
 		out = append(out, fmt.Sprintf("mpair %s %d %d %s %s %s %s %d %s", kind, limit, passes, cfgString(cfg),
